@@ -27,7 +27,7 @@ func init() {
 			"and for type 5 every single-element drop, duplication, adjacent and seeded swaps, appended element, foreign proof. Universal oracle on every call: a nil error implies the token verifies under the key the request was created for (circl FullEvaluate / crypto/rsa.VerifyPSS) and carries that request's type, nonce, SHA-256(challenge) and key id. " +
 			"Rejection oracle: every listed corruption must return an error. Lifecycle part: up to 4 requests of one type outstanding at once, created and finalized (garbage, bit-flipped and honest responses, evaluated from the wire bytes captured at creation) in seeded interleavings; every honest finalization must succeed with the token of its own request. distinct_nontrivial = distinct (type, corruption class, state, position) keys",
 		Floors: []string{"accepted_valid", "rejected_by_decode", "rejected_by_proof", "rejected_by_count", "rejected_by_aead", "rejected_by_rsa_check",
-			"type1_bitflips", "type2_bitflips", "type3_bitflips", "type5_bitflips", "cross_pair_rejected", "type5_drop_rejected", "type5_dup_rejected", "type5_swap_rejected", "lifecycle_sequences", "lifecycle_honest_finalized"},
+			"type1_bitflips", "type2_bitflips", "type3_bitflips", "type5_bitflips", "cross_pair_rejected", "type5_drop_rejected", "type5_dup_rejected", "type5_swap_rejected", "lifecycle_sequences", "lifecycle_honest_finalized", "odd_salt_lengths", "client_object_reused_across_keys"},
 		Assumptions: []string{"single-bit flips change the mathematical response (argued in DESIGN.md C02); nonces in a batch are distinct so swaps are never of equal elements"},
 		Run:         runC02,
 	})
@@ -374,6 +374,7 @@ func runC02(c *core.Ctx) {
 		c.Sample("type5 structure attacks", map[string]any{"state": p.st.label, "elements": nb})
 	}
 	c02Lifecycle(c)
+	c02Extra(c)
 }
 
 func rsaTokVerifier(pub *rsa.PublicKey, typ uint16, nonce, challenge, kid []byte) func(tokens.Token) error {
@@ -604,4 +605,166 @@ func c02CallExpectSuccess(c *core.Ctx, st *c02State, resp []byte, script []strin
 	}
 	c.Class("lifecycle_honest_finalized")
 	c.Class("accepted_valid")
+}
+
+// ---------------------------------------------------------------- further request shapes
+//
+// (a) type-2 requests made with caller-supplied salts of other lengths than 48: whatever FinalizeToken returns
+// without error must still be a token a standard RSASSA-PSS(SHA-384, salt 48) verifier accepts.
+// (b) one client object (as returned by the constructors) used for several issuer keys, including two keys whose
+// truncated key ids collide: each request must be finalized against its own issuer key only.
+func c02Extra(c *core.Ctx) {
+	rk := RSAKeys()
+	n := c.Pick(3, 40)
+	for i := 0; i < n; i++ {
+		if !c.Next() {
+			continue
+		}
+		r := c.CaseRng()
+		key := rk[i%len(rk)]
+		iss := type2.NewBasicPublicIssuer(key)
+		for _, sl := range []int{0, 1, 20, 32, 47, 48, 49, 64} {
+			ch, nonce, kid, salt := r.Bytes(r.IntN(30)), r.Bytes(32), iss.TokenKeyID(), r.Bytes(sl)
+			c.Eval(1)
+			var st type2.BasicPublicTokenRequestState
+			var err error
+			pan, pv, _ := core.Guard(func() {
+				st, err = type2.NewBasicPublicClient().CreateTokenRequestWithBlind(ch, nonce, kid, iss.TokenKey(), RSABlind(r, 5+i, key), salt)
+			})
+			if pan {
+				c.Violation("type2:odd-salt:panic", "CreateTokenRequestWithBlind panicked: "+pv, map[string]any{"salt_len": sl})
+				continue
+			}
+			if err != nil {
+				c.Class("odd_salt_refused_at_creation")
+				continue
+			}
+			resp, err := iss.Evaluate(st.Request())
+			if err != nil {
+				continue
+			}
+			state := &c02State{typ: 2, label: fmt.Sprintf("t2-salt%d", sl), nonces: [][]byte{nonce}, challenge: ch, keyID: kid, authLen: 256,
+				finalize: func(b []byte) ([]tokens.Token, error) {
+					t, err := st.FinalizeToken(b)
+					if err != nil {
+						return nil, err
+					}
+					return []tokens.Token{t}, nil
+				},
+				verifyTok: rsaTokVerifier(&key.PublicKey, 2, nonce, ch, kid)}
+			c02Call(c, state, resp, fmt.Sprintf("honest-response-salt-length#%d", sl), false)
+			c.Class("odd_salt_lengths")
+		}
+		c.Distinctf("oddsalt:%d", i)
+	}
+	// (b) client objects reused across issuer keys
+	m := c.Pick(4, 60)
+	for i := 0; i < m; i++ {
+		if !c.Next() {
+			continue
+		}
+		r := c.CaseRng()
+		// type 1: two keys with colliding last key-id byte
+		kA := VOPRFKey(oprf.SuiteP384, r.Bytes(32))
+		var kB *oprf.PrivateKey
+		for {
+			kB = VOPRFKey(oprf.SuiteP384, r.Bytes(32))
+			if lastByte(RefVOPRFKeyID(kB)) == lastByte(RefVOPRFKeyID(kA)) {
+				break
+			}
+		}
+		issA, issB := type1.NewBasicPrivateIssuer(kA), type1.NewBasicPrivateIssuer(kB)
+		cl := type1.NewBasicPrivateClient()
+		chA, nA, chB, nB := r.Bytes(10), r.Bytes(32), r.Bytes(10), r.Bytes(32)
+		stA, err := cl.CreateTokenRequest(chA, nA, issA.TokenKeyID(), issA.TokenKey())
+		must(err)
+		stB, err := cl.CreateTokenRequest(chB, nB, issB.TokenKeyID(), issB.TokenKey())
+		must(err)
+		mk1 := func(st type1.BasicPrivateTokenRequestState, key *oprf.PrivateKey, ch, nonce, kid []byte, label string) *c02State {
+			return &c02State{typ: 1, label: label, nonces: [][]byte{nonce}, challenge: ch, keyID: kid, authLen: 48,
+				finalize: func(b []byte) ([]tokens.Token, error) {
+					t, err := st.FinalizeToken(b)
+					if err != nil {
+						return nil, err
+					}
+					return []tokens.Token{t}, nil
+				},
+				verifyTok: func(t tokens.Token) error {
+					if !bytes.Equal(t.Authenticator, RefVOPRF(oprf.SuiteP384, key, ref.TokenBytes(1, nonce, ch, kid, nil))) {
+						return fmt.Errorf("authenticator != VOPRF(key, token input)")
+					}
+					return nil
+				}}
+		}
+		sA := mk1(stA, kA, chA, nA, issA.TokenKeyID(), "t1-clientreuse-A")
+		sB := mk1(stB, kB, chB, nB, issB.TokenKeyID(), "t1-clientreuse-B")
+		rB, err := issB.Evaluate(stB.Request())
+		must(err)
+		rBwrong, err := issA.Evaluate(stB.Request()) // evaluated under the other key with the same truncated id
+		must(err)
+		rA, err := issA.Evaluate(stA.Request())
+		must(err)
+		c02Call(c, sB, rBwrong, "same-client-object:response-under-colliding-key", true)
+		c02CallExpectSuccess(c, sB, rB, []string{"one client object", "request for key A", "request for key B (same truncated key id)", "honest response for B"})
+		c02CallExpectSuccess(c, sA, rA, []string{"one client object", "request for key A", "request for key B (same truncated key id)", "honest response for A"})
+		c.Class("client_object_reused_across_keys")
+		c.Distinctf("clientreuse:t1:%d", i)
+		// type 5 likewise
+		k5A := VOPRFKey(oprf.SuiteRistretto255, r.Bytes(32))
+		var k5B *oprf.PrivateKey
+		for {
+			k5B = VOPRFKey(oprf.SuiteRistretto255, r.Bytes(32))
+			if lastByte(RefVOPRFKeyID(k5B)) == lastByte(RefVOPRFKeyID(k5A)) {
+				break
+			}
+		}
+		i5A, i5B := type5.NewBatchedPrivateIssuer(k5A), type5.NewBatchedPrivateIssuer(k5B)
+		cl5 := type5.NewBatchedPrivateClient()
+		nonces := [][]byte{r.Bytes(32), r.Bytes(32)}
+		ch5 := r.Bytes(10)
+		_, err = cl5.CreateTokenRequest(r.Bytes(5), [][]byte{r.Bytes(32)}, i5A.TokenKeyID(), i5A.TokenKey())
+		must(err)
+		st5, err := cl5.CreateTokenRequest(ch5, nonces, i5B.TokenKeyID(), i5B.TokenKey())
+		must(err)
+		kid5 := i5B.TokenKeyID()
+		s5 := &c02State{typ: 5, label: "t5-clientreuse-B", nonces: nonces, challenge: ch5, keyID: kid5, authLen: 64, finalize: st5.FinalizeTokens,
+			verifyTok: func(t tokens.Token) error {
+				for _, nn := range nonces {
+					if bytes.Equal(nn, t.Nonce) && bytes.Equal(t.Authenticator, RefVOPRF(oprf.SuiteRistretto255, k5B, ref.TokenBytes(5, nn, ch5, kid5, nil))) {
+						return nil
+					}
+				}
+				return fmt.Errorf("authenticator != VOPRF(key, token input)")
+			}}
+		r5wrong, err := i5A.Evaluate(st5.Request())
+		must(err)
+		r5, err := i5B.Evaluate(st5.Request())
+		must(err)
+		c02Call(c, s5, r5wrong, "same-client-object:response-under-colliding-key", true)
+		c02CallExpectSuccess(c, s5, r5, []string{"one type-5 client object", "request for key A", "request for key B (same truncated key id)", "honest response for B"})
+		// type 2: one client object, two keys
+		cl2 := type2.NewBasicPublicClient()
+		k2A, k2B := rk[i%len(rk)], rk[(i+1)%len(rk)]
+		i2A, i2B := type2.NewBasicPublicIssuer(k2A), type2.NewBasicPublicIssuer(k2B)
+		_, err = cl2.CreateTokenRequest(r.Bytes(5), r.Bytes(32), i2A.TokenKeyID(), i2A.TokenKey())
+		must(err)
+		ch2, n2 := r.Bytes(10), r.Bytes(32)
+		st2, err := cl2.CreateTokenRequest(ch2, n2, i2B.TokenKeyID(), i2B.TokenKey())
+		must(err)
+		s2 := &c02State{typ: 2, label: "t2-clientreuse-B", nonces: [][]byte{n2}, challenge: ch2, keyID: i2B.TokenKeyID(), authLen: 256,
+			finalize: func(b []byte) ([]tokens.Token, error) {
+				t, err := st2.FinalizeToken(b)
+				if err != nil {
+					return nil, err
+				}
+				return []tokens.Token{t}, nil
+			},
+			verifyTok: rsaTokVerifier(&k2B.PublicKey, 2, n2, ch2, i2B.TokenKeyID())}
+		if r2wrong, err := i2A.Evaluate(st2.Request()); err == nil {
+			c02Call(c, s2, r2wrong, "same-client-object:response-under-other-key", true)
+		}
+		r2, err := i2B.Evaluate(st2.Request())
+		must(err)
+		c02CallExpectSuccess(c, s2, r2, []string{"one type-2 client object", "request for key A", "request for key B", "honest response for B"})
+	}
 }
